@@ -47,3 +47,26 @@ func vhKind(e *Expr) r.Kind { return e.Type.Kind() }
 func vhConstFloatOK(f float64) bool {
 	return f == f && f-f == 0 && (f != 0 || 1/f > 0)
 }
+
+const vhSlots = 3
+
+// vhEnvChain builds frames e0 (innermost) ... e_d (top) with symbolic Ints; FileEnv = e_{d-1}
+// (frame invariant: FileEnv is Depth-1 Outer hops away).
+func vhEnvChain(d int) []*Env {
+	envs := make([]*Env, d+1)
+	for j := 0; j <= d; j++ {
+		envs[j] = &Env{}
+		envs[j].Ints = make([]uint64, vhSlots)
+		envs[j].Vals = make([]xr.Value, vhSlots)
+		for i := 0; i < vhSlots; i++ {
+			envs[j].Ints[i] = vhU64("slot")
+		}
+	}
+	for j := 0; j <= d; j++ {
+		if j < d {
+			envs[j].Outer = envs[j+1]
+		}
+		envs[j].FileEnv = envs[d-1]
+	}
+	return envs
+}
